@@ -70,6 +70,16 @@ def all_nodes(g: Graph) -> list[Node]:
 
 
 # ---------------------------------------------------------------- specs
+def materialise(payload: Any) -> Any:
+    """specs stay plain data; the marker 'ARRAY:k' stands for a (callable name, [numpy array], {}) payload whose array is
+    a fresh object with the same contents every time"""
+    if isinstance(payload, str) and payload.startswith("ARRAY:"):
+        import numpy as np
+
+        return ("f", [np.arange(3.0) + int(payload[6:])], {})
+    return payload
+
+
 class GraphSpec:
     """nodes: list of dicts {name, payload, outputs (None=default | list)}; edges: (src idx, src output, dst idx, input name)"""
 
@@ -85,7 +95,7 @@ class GraphSpec:
             for (s, so, d, iname) in self.edges:
                 if d == i:
                     ins[iname] = objs[s].get_output(so) if so is not None else objs[s].get_output()
-            objs.append(Node(nd["name"], nd["outputs"], nd["payload"], **ins))
+            objs.append(Node(nd["name"], nd["outputs"], materialise(nd["payload"]), **ins))
         consumed = {s for (s, _, _, _) in self.edges}
         sinks = [o for i, o in enumerate(objs) if i not in consumed]
         if self.sinks_mode == "overlap":
@@ -107,6 +117,7 @@ PAYLOAD_PATTERNS = {
     "all-p": lambda i, depth: "p",
     "alt": lambda i, depth: "pq"[i % 2],
     "by-depth": lambda i, depth: "pq"[depth % 2],
+    "arrays": lambda i, depth: f"ARRAY:{depth % 2}",   # equal arrays in distinct objects at equal depth
 }
 OUTPUT_PATTERNS = ("default", "multi", "terminal-none")
 
